@@ -85,6 +85,8 @@ def _case(draw):
         "handler": draw(st.sampled_from(["umn", "umn", "dir"])),
         "form": draw(st.sampled_from(FORMS)),
         "depth": draw(st.sampled_from([0, 1, 1, 2])),
+        # a link file that gives the faulty entries (and one good entry) a nicer title: 'Path=./name' blocks
+        "titles": draw(st.sampled_from([False, False, True])),
         # the full handler list (ZIP, scripts, PYG, TAL, URL type rewriter ...), and directories at or below a top-level
         # directory with a one-character name (where the type rewriter reads '/1/foo' as type 1 + '/foo')
         "fulllist": draw(st.booleans()),
@@ -106,6 +108,11 @@ def _spec(case, with_faults):
     spec = []
     if prefix:
         spec.append([prefix, "d", None])
+    if case.get("titles") and case["handler"] == "umn":
+        named = [nm for _, nm in case["faults"]] + [g[0] + (".html" if g[1] == "h" else "") for g in case["good"][:1]]
+        named = [nm for nm in named if not re.search(r"[\t\r\n]", nm) and nm == nm.strip() and not nm.startswith(".")]
+        if named:
+            spec.append([pre + ".zz-titles", "f", "\n".join("Name=Nice title %d\nPath=./%s\n" % (i, nm) for i, nm in enumerate(named))])
     for name, kind, content in case["good"]:
         if kind == "d":
             spec.append([pre + name, "d", None])
@@ -253,7 +260,8 @@ def check_case(case, ctx):
         return (e["kind"], e["name"], e["target"])
 
     fa = [key(e) for e in ea if not (e["target"] and e["target"][0] == "local" and e["target"][1] in faulty_sels)]
-    fb = [key(e) for e in eb]
+    # (a link file may give a faulty name a title: that added link is about the faulty entry too, on both sides)
+    fb = [key(e) for e in eb if not (e["target"] and e["target"][0] == "local" and e["target"][1] in faulty_sels)]
     if fa != fb:
         missing = [k for k in fb if k not in fa]
         extra = [k for k in fa if k not in fb]
